@@ -108,6 +108,18 @@ def m_itoa_format(e,run,a,f):
             return Ref(Cell(Str([0x2d]+decimal_digits(run,mag,n.w))))
         return Ref(Cell(Str(decimal_digits(run,n.v,n.w))))
     return Ref(Cell(Str(decimal_digits(run,n.v,n.w))))
+def number_text(run,num):
+    """serde_json's Display of a Number: integers through itoa, floats as the shortest round-trip text (ryu) - the text of a
+    float is carried by the harness (Opaque('f64', text)), default 1.5"""
+    n=deref(num).f[0]
+    if n.vname=='Float':
+        t=deref(n.f[0]).p if isinstance(deref(n.f[0]),Opaque) and isinstance(deref(n.f[0]).p,str) else '1.5'
+        return list(t.encode())
+    x=n.f[0]
+    if x.conc(): return list(str(x.signed_val() if n.vname=='NegInt' else x.v).encode())
+    if n.vname=='NegInt': return [0x2d]+decimal_digits(run,0-x.v,64)
+    return decimal_digits(run,x.v,64)
+def m_number_to_string(e,run,a,f): return StringO(number_text(run,a[0]))
 def m_map_iter_sorted(e,run,a,f):
     from .models import to_iter
     return to_iter(e,run,a[0] if isinstance(a[0],Ref) else Ref(Cell(a[0])))
